@@ -1,5 +1,94 @@
-From Dawn Require Import Pickle.Model.
+(** C07 — Pickle codec round-trips every value exactly.
+
+    [encode_top pk fuel h v] models Encoder.Encode on the value [v] whose mutable objects live in the heap
+    [h] (Pickle/Model.v); [decode unp bs] models Decoder.Decode: the decoded value and the decoder's heap.
+    [fuel] bounds the encoder's recursion depth only; the hypotheses [encode_top ... = Ok bs] say "the encoder
+    returned these bytes" ([tree_encodable] and the examples below show they are satisfiable).
+    Sharing of immutable tuples is not observable in Starlark and is not part of the isomorphism. *)
+From Dawn Require Import Pickle.Model Pickle.Spec Pickle.Proofs_Tree Pickle.Proofs_Heap.
 Open Scope N_scope.
-Theorem pipeline_smoke : decode None (enc_int 5 ++ [opSTOP]) = Ok (VInt 5, []).
-Proof. vm_compute. reflexivity. Qed.
-Print Assumptions pipeline_smoke.
+
+(** Integers of EVERY magnitude (BININT1, BININT2, BININT and the decimal INT form). *)
+Theorem int_roundtrip : forall unp z, decode unp (enc_int z ++ [opSTOP]) = Ok (VInt z, []).
+Proof. exact int_roundtrip_proof. Qed.
+Print Assumptions int_roundtrip.
+
+(** Strings and bytes of every length below 2^32 (the short and the 4-byte-length forms). *)
+Theorem string_roundtrip : forall unp s, len s < 4294967296 ->
+    decode unp (enc_string opSHORT_BINUNICODE opBINUNICODE s ++ [opSTOP]) = Ok (VStr s, []) /\
+    decode unp (enc_string opSHORT_BINBYTES opBINBYTES s ++ [opSTOP]) = Ok (VBytes s, []).
+Proof. exact string_roundtrip_proof. Qed.
+Print Assumptions string_roundtrip.
+
+(** Floats: all 64 bits, NaN payloads and signed zeros included. *)
+Theorem float_roundtrip : forall unp bits, bits < 18446744073709551616 ->
+    decode unp (enc_float bits ++ [opSTOP]) = Ok (VFloat bits, []).
+Proof. exact float_roundtrip_proof. Qed.
+Print Assumptions float_roundtrip.
+
+(** Arbitrarily nested immutable values (None, bools, ints, floats, strings, bytes, tuples of any arity):
+    decoding the encoding yields exactly the value, and allocates nothing. *)
+Theorem tree_roundtrip : forall pk unp fuel h v bs,
+    heap_free v -> wf_val v -> encode_top pk fuel h v = Ok bs -> decode unp bs = Ok (v, []).
+Proof. exact tree_roundtrip_proof. Qed.
+Print Assumptions tree_roundtrip.
+
+(** ... and the encoder accepts every such value. *)
+Theorem tree_encodable : forall pk h v, heap_free v -> exists bs, encode_top pk (S (depth v)) h v = Ok bs.
+Proof. exact tree_encodable_proof. Qed.
+Print Assumptions tree_encodable.
+
+(** Consequently two immutable values that differ never decode to equal values (nor share an encoding). *)
+Theorem tree_distinct : forall pk unp f1 f2 h1 h2 v1 v2 bs1 bs2,
+    heap_free v1 -> wf_val v1 -> heap_free v2 -> wf_val v2 ->
+    encode_top pk f1 h1 v1 = Ok bs1 -> encode_top pk f2 h2 v2 = Ok bs2 ->
+    v1 <> v2 -> decode unp bs1 <> decode unp bs2 /\ bs1 <> bs2.
+Proof. exact tree_distinct_proof. Qed.
+Print Assumptions tree_distinct.
+
+(** Lists, dicts and sets of ANY size (any number of 1000-element batches), nested anywhere, shared and
+    self-referential: the decoded graph is isomorphic to the source graph -- a one-to-one correspondence
+    [rho] between the reachable source objects and the decoded objects under which the roots agree and
+    every pair of corresponding objects has the same kind and pairwise corresponding contents in the same
+    order.  [wf_heap]: Go-representable sizes, dict keys / set elements hashable and pairwise distinct
+    (Starlark's own invariant), fewer than 2^32 objects.  [no_host]: the host pickler declines the
+    objects of this heap (host objects: see [obj_roundtrip] and the note in the check's META). *)
+Theorem heap_roundtrip : forall pk unp fuel h v bs,
+    wf_heap h -> no_host pk h -> wf_val v ->
+    encode_top pk fuel h v = Ok bs ->
+    exists v' h', decode unp bs = Ok (v', h') /\ iso h v h' v'.
+Proof. exact heap_roundtrip_proof. Qed.
+Print Assumptions heap_roundtrip.
+
+(** Consequently two graphs with the same encoding are both isomorphic to the one graph that decodes from
+    it: values that differ (are not isomorphic) never decode to equal values. *)
+Theorem same_encoding_iso : forall pk unp f1 f2 h1 v1 h2 v2 bs,
+    wf_heap h1 -> no_host pk h1 -> wf_val v1 -> wf_heap h2 -> no_host pk h2 -> wf_val v2 ->
+    encode_top pk f1 h1 v1 = Ok bs -> encode_top pk f2 h2 v2 = Ok bs ->
+    exists v' h', decode unp bs = Ok (v', h') /\ iso h1 v1 h' v' /\ iso h2 v2 h' v'.
+Proof. exact same_encoding_iso_proof. Qed.
+Print Assumptions same_encoding_iso.
+
+(** A value handled by the host pickler (object-preserving pair), constructor arguments immutable. *)
+Theorem obj_roundtrip : forall fuel h a m n args bs,
+    nth_error h a = Some (NObj m n args) ->
+    Forall heap_free args -> Forall wf_val args -> len m < 4294967296 -> len n < 4294967296 ->
+    encode_top (Some obj_pickler) fuel h (VRef a) = Ok bs ->
+    decode (Some obj_unpickler) bs = Ok (VRef 0%nat, [NObj m n args]).
+Proof. exact obj_roundtrip_proof. Qed.
+Print Assumptions obj_roundtrip.
+
+(** The hypotheses are satisfiable: a list containing itself and a dict that is its own value, shared. *)
+Definition ex_heap : heap :=
+  [NList [VInt 1; VRef 0%nat; VRef 1%nat]; NDict [(VStr [115], VRef 1%nat); (VTuple [VInt 2; VNone], VRef 0%nat)];
+   NSet [VInt 7; VStr [120]]].
+
+Example ex_wf : wf_heap ex_heap /\ no_host (Some obj_pickler) ex_heap /\
+                exists bs, encode_top (Some obj_pickler) 10 ex_heap (VTuple [VRef 0%nat; VRef 2%nat; VRef 0%nat]) = Ok bs.
+Proof.
+  split; [|split].
+  - split; [|vm_compute; discriminate]. repeat constructor.
+  - intros p nd E HI. inversion E; subst. cbn in HI.
+    destruct HI as [<-|[<-|[<-|[]]]]; reflexivity.
+  - vm_compute. eexists; reflexivity.
+Qed.
